@@ -51,6 +51,8 @@ var c07Sets = [][]c07Route{
 	// expression (if such a route is accepted, serving it must still not panic)
 	{{Method: "GET", Text: `/{x: /(a)\Qz\E/}{y: /\Qb\E/}`}, {Method: "GET", Text: "/{p}"}},
 	{{Method: "GET", Text: `/{x: /(a)\Q/}{y: /\Qb\E/}`}, {Method: "GET", Text: "/{p}"}},
+	// regex segments in the middle of a route whose last (or only) bind expression has groups of its own
+	{{Method: "GET", Text: "/{k: /(a|z)/}/z"}, {Method: "GET", Text: "/a/{y: /[a2]+/}-{e: /(a|z)(a)?/}/z"}, {Method: "GET", Text: "/{p}"}},
 	// constraints specified again: cleared with an empty call, and replaced
 	{{Method: "GET", Text: "/a", Hdr: []string{"X-K", "^v$"}, Then: [][]string{{}}}, {Method: "GET", Text: "/z/?z", Hdr: []string{"X-K", "^v$"}, Then: [][]string{{"X-K", "^w$"}, {}}}, {Method: "GET", Text: "/{m: **}", Hdr: []string{"X-K", ""}, Then: [][]string{{}, {"X-K", "^w$"}}}},
 	// registration attempts that are refused, between accepted ones (bind reused deeper down the same
@@ -304,6 +306,7 @@ func c07Paths(thorough bool) []string {
 		}
 	}
 	out = append(out, "/A", "/A/b", "/a/B", "/A/", "/Z/a") // matching is case-sensitive
+	out = append(out, "/a/a-a/z", "/a/2-za/z", "/a/a-z", "/z/z", "/a/z/z")
 	out = append(out, `/a)(\Qb`, "/azb", "/ab", "/a)(b", `/az\Eb`, `/a\Qz\Eb`) // texts around the quoted expressions
 	out = append(out, "/"+strings.Repeat("a/", 32*1024), strings.Repeat("/", 70000), "/a/"+strings.Repeat("z", 65536))
 	return out
